@@ -36,6 +36,7 @@ class _Win(Entry):
     xdtype = torch.float64
     shared_w = False             # one weight row shared by the tasks (MSE sample_weight)
     zero_weights = True          # weight tensors that are all zero / partly zero are generated
+    huge_weights = True          # one update in ~12 carries weights 2^40 / 2^60 times larger (not for NE / AUROC: 1 - p cancels in float64)
     extra_opts = [{}]
     base_model = None            # Coq model of the class as it is; "<base_model>_cap" = repaired merge_state
     _model = None
@@ -101,6 +102,10 @@ class _Win(Entry):
             w = rng.choice(WEIGHTS)
             return mode, [[w] * n for _ in range(rows)]
         w = [[rng.choice(WEIGHTS) for _ in range(n)] for _ in range(rows)]
+        if self.huge_weights and rng.random() < 0.08:
+            # one update whose weights dwarf its neighbours' (2^40 / 2^60 times): it passes through the window and is evicted
+            sc = F(2) ** rng.choice([40, 60])
+            w = [[x * sc for x in r] for r in w]
         if self.zero_weights:
             u = rng.random()
             if u < 0.15:                                  # an explicit ALL-ZERO weight tensor
@@ -294,6 +299,7 @@ class WMSE(_Win):
 
 
 class WNE(_Win):
+    huge_weights = False
     name, cls, base_model, ref_cls = ("WindowedBinaryNormalizedEntropy", M.WindowedBinaryNormalizedEntropy, "wne",
                                  M.BinaryNormalizedEntropy)
     scalar_weight = False
@@ -337,6 +343,7 @@ def auroc_compute_variant():
 
 
 class WAUROC(_Win):
+    huge_weights = False
     name, cls, ref_cls = "WindowedBinaryAUROC", M.WindowedBinaryAUROC, M.BinaryAUROC
     _model = None
 
